@@ -4,6 +4,8 @@ PROPS = [json.loads(l)["id"] for l in open("properties.jsonl")]
 BASE = "cd /repo && /venv/bin/python -m pytest -ra -q -p no:cacheprovider --timeout=900 --continue-on-collection-errors"
 TECH = "contract-based deductive verification: sidecar contracts on the real functions, VCs generated from /repo's AST by pyvc, discharged by z3 (cvc5 fallback); counter-models replayed natively"
 CLAIMED = {
+ "C13": dict(text="Contracts proved against the real bodies: union / AnySchema.__call__ / _flatten_schemas (recursive, loop invariant: the flattened alternatives accept exactly what the given ones accept), DictSchema.__add__ (right-biased merge of the key tables), __getitem__, keys, SchemaFacade.alias, make_required (two loops; same keys and members, optional flag cleared iff listed); the statement's equivalences are lemmas over those contracts and the definition of conforms. The Validator verdict contract is re-proved in this check.",
+             note="DictSchema.__iter__ / AnySchema.__iter__ (generator functions) are outside the executor's subset and not under contract; reachable-schema precondition on operands. ", ref="DESIGN.md 4.13"),
  "C14": dict(text="from_native is proved (recursive contract, comprehension rule per element) to return a well-formed schema R with conforms(R, w) <=> denotes(x, w) for every w, where denotes is the specification of `the same plain value` written from the statement; to raise only ValueError on the plain-value domain; reflexivity (R accepts x) is a lemma over that contract by structural induction. The Validator verdict contract it composes with is re-proved in this check.",
              note="DictSchema.__call__ is an assumed contract (its loop is not yet verified); ListSchema.__call__ and the scalar __call__ contracts are proved. Domain: dicts with plain keys (no ... / optional keys). Known finding: NaN.", ref="DESIGN.md 4.14"),
  "C04": dict(text="Exact contracts of Substitutor.visit_<scalar> (raises SubstitutionError iff the value does not conform; otherwise the result is the schema with value := v) proved against the real bodies, then lemmas over those contracts and the specification functions: S % v accepts v, is reachable/self-consistent, and every value it accepts is pinned to v. The Validator verdict contract it composes with is re-proved in this check.",
